@@ -47,6 +47,7 @@ void harness::run_case(const eng::Raw& raw, eng::Ctx& ctx)
 
 	ExplicitTreeAut a;
 	ExplicitTreeAut::AlphabetType alpha;
+	ExplicitTreeAut::AbstractAlphabet::FwdTranslatorPtr kept;
 	std::set<int> S;
 	{
 		eng::LibSection ls(ctx, "build");
@@ -55,6 +56,7 @@ void harness::run_case(const eng::Raw& raw, eng::Ctx& ctx)
 			a.SetAlphabet(alpha);
 		}
 		else alpha = a.GetAlphabet();
+		kept = alpha->GetSymbolTransl();      // a translator the caller keeps (used again after the first Complement)
 		// interleave registration: some extras before, the rest after the rules
 		for (size_t i = 0; i < extra.size(); i += 2) lib::sym_to_lib(alpha, extra[i]);
 		lib::fill(a, c.A, c.order, c.num);
@@ -123,4 +125,33 @@ void harness::run_case(const eng::Raw& raw, eng::Ctx& ctx)
 		ctx.count("trees_enumerated", static_cast<long>(trees.size()));
 	}
 	tc::expect_unchanged(ctx, "complement", a, V);
+
+	// --- the alphabet grows through the KEPT translator, then the same automaton is complemented again
+	{
+		int extraSym = -1;
+		for (int sy = 0; sy < ref::POOL_SIZE; ++sy)
+			if (!S.count(sy) && (ref::arity(sy) < 3 || lim.arity3) && (flavour != 3 || ref::arity(sy) == 0)) { extraSym = sy; break; }
+		if (extraSym < 0) return;
+		std::set<int> S2;
+		ExplicitTreeAut cmp2;
+		{
+			eng::LibSection ls(ctx, "Complement:after-growing-alphabet");
+			(*kept)(ExplicitTreeAut::StringRank(ref::symname(extraSym), static_cast<size_t>(ref::arity(extraSym))));
+			cmp2 = a.Complement();
+			auto otf = std::dynamic_pointer_cast<ExplicitTreeAut::OnTheFlyAlphabet>(a.GetAlphabet());
+			for (auto& kv : otf->GetSymbolDict()) S2.insert(ref::symtab().id(kv.first.symbolStr, static_cast<int>(kv.first.rank)));
+		}
+		if (!S2.count(extraSym)) { ctx.machinery_error("symbol registered through the kept translator is not in the dictionary"); return; }
+		const ref::TA C2 = lib::read(cmp2, alpha);
+		ref::TA Univ2;
+		for (int sy : S2) Univ2.add(sy, std::vector<int>(static_cast<size_t>(ref::arity(sy)), 0), 0);
+		Univ2.finals.insert(0);
+		for (int sy : C2.symbols())
+			if (!S2.count(sy)) { ctx.fail("complement-2:foreign-symbol", "second complement uses a symbol outside the grown alphabet"); break; }
+		if (!ref::product(V, C2).empty_lang()) ctx.fail("complement-2:overlap", "after the alphabet grew, a tree is accepted by A and by Complement(A); A = " + V.str());
+		ref::InclResult r2 = ref::included(Univ2, ref::union_disjoint(V, C2), cap);
+		if (r2.verdict == ref::Tri::NO)
+			ctx.fail("complement-2:gap", "after the alphabet grew by " + ref::symname(extraSym) + ", tree " + ref::show(r2.witness) + " is accepted neither by A nor by the new Complement(A); A = " + V.str());
+		ctx.count("second_complements");
+	}
 }
